@@ -180,7 +180,8 @@ func (qc queueCaller) PipelineRecv(ctx context.Context, transform []capnp.Pipeli
 			path:  clientPathFromTransform(transform),
 			Recv:  r,
 		})
-		basis := len(qc.aq.q) - 1
+		// The result of q[i] is bases[i+1]; bases[0] is the answer itself.
+		basis := len(qc.aq.q)
 		qc.aq.mu.Unlock()
 		return queueCaller{aq: qc.aq, basis: basis}
 	}
